@@ -62,7 +62,7 @@ ASSUMPTIONS = ["float64 arithmetic modelled as exact real arithmetic",
                "support sets: 2D {-1,0,+1} along the in-layer axis; 3D nsampling 5 = centre + 4 edge neighbours, 9 = 3x3 block "
                "(Langelaar 2016/2017), elements outside the domain are skipped"]
 ITEM_TIMEOUT = {"quick": 110, "thorough": 600}
-REPLAYS_PER_GROUP = 3
+REPLAYS_PER_GROUP = 2
 
 VERIF = os.path.dirname(os.path.dirname(os.path.abspath(__file__)))
 ALPHABET = "xyzXYZ+- "
@@ -86,7 +86,7 @@ class Chk:
 
     def le(self, label, a, b, kind):
         if self.P is not None:
-            self.P.holds(label, R.of(a) <= R.of(b), kind=kind)
+            return self.P.holds(label, R.of(a) <= R.of(b), kind=kind)
         else:
             a, b = float(a), float(b)
             if not a <= b + 1e-9 * max(1.0, abs(a), abs(b)):
@@ -531,7 +531,6 @@ def sc_forward(V, P, cfg):
     m.response()
     y = m.sig_out[0].state
     obs = dict(y=y)
-    _sat_hints(V, m, xin, eps)
     yr, sr, base, roots = ref_overhang(xin, n, dim, axis, sign, nsamp or (3 if dim == 2 else 5), p, q, shift, backshift, eps)
     K.true("len(y)", len(y) == N, "shape")
     root0 = _sqrt(eps)
@@ -542,44 +541,15 @@ def sc_forward(V, P, cfg):
             K.eq("base:y[%d]==x" % e, y[e], xin[e], "base-layer")
         else:
             K.eq("smax[%d]==ref" % e, m.smax[e], sr[e], "smax==reference")
-            # the two bounds need only the SQRT axioms of this element's own square root and of sqrt(eps)
-            with _OnlyAxioms(V, [roots[e], root0]):
-                K.le("y[%d]<=x+sqrt(eps)/2" % e, y[e], xin[e] + half, "bound-x")
-                K.le("y[%d]<=smax+sqrt(eps)/2" % e, y[e], sr[e] + half, "bound-smax")
+            # the two bounds need only the axioms of this element's own square root and of sqrt(eps)
+            for lab, rhs, kd in (("y[%d]<=x+sqrt(eps)/2" % e, xin[e] + half, "bound-x"),
+                                 ("y[%d]<=smax+sqrt(eps)/2" % e, sr[e] + half, "bound-smax")):
+                with _OnlyAxioms(V, [roots[e], root0]):
+                    o = K.le(lab, y[e], rhs, kd)
+                if o is not None and o.status != "unsat":
+                    P.obls.remove(o)          # not closed with the two instances: decide it with the engine's selection
+                    K.le(lab, y[e], rhs, kd)
     return obs
-
-
-def _sat_hints(V, m, x, eps):
-    """Acceleration of the satisfiability checks of the path (vacuity guard, branch feasibility): a model of
-    `constraints + hints` is a model of `constraints`, so the context first tries the query together with the hints
-    x_e == smax_e, eps == 1/100 (every square root becomes rational) and falls back to the plain query otherwise.
-    Nothing is assumed: an answer `sat` is only ever returned with a model of the original constraints."""
-    if not V.symbolic:
-        return
-    import z3
-    c = V.c
-    hints = []
-    for e in range(len(x)):
-        h = (x[e] == m.smax[e])
-        if isinstance(h, SB):
-            hints.append(h.t)
-    h = (eps == R.of("1/100"))
-    if isinstance(h, SB):
-        hints.append(h.t)
-    orig = c.check.__func__ if hasattr(c.check, "__func__") else None
-    if orig is None or getattr(c, "_c14_hints", None) is not None:
-        c._c14_hints = hints
-        return
-    c._c14_hints = hints
-
-    def check(extra=(), timeout_ms=None):
-        hs = getattr(c, "_c14_hints", None)
-        if hs:
-            r, sv = orig(c, list(extra) + list(hs), timeout_ms)
-            if r == z3.sat:
-                return r, sv
-        return orig(c, extra, timeout_ms)
-    c.check = check
 
 
 class _OnlyAxioms:
@@ -590,7 +560,7 @@ class _OnlyAxioms:
     instances can only turn `unsat` into `sat`/`unknown`, never the other way round."""
 
     def __init__(self, V, roots):
-        self.c = V.c if (V.symbolic and os.environ.get("C14_NO_AXIOM_FILTER") is None) else None
+        self.c = V.c if V.symbolic else None
         self.roots = roots
 
     def __enter__(self):
@@ -639,7 +609,6 @@ def sc_equivariance(V, P, cfg):
     m1 = _make(V, mesh, x, _dirvec(axis, sign, dim), nsamp, prm)
     m1.response()
     y1 = m1.sig_out[0].state
-    _sat_hints(V, m1, x, prm[4])
     op = cfg["op"]
     if op[0] == "mirror":
         a = op[1]
@@ -727,12 +696,7 @@ def items(tier):
 def run_item(cfg, tier):
     if cfg["kind"] == "string-crosshair":
         return run_crosshair_item(cfg, tier)
-    to = None
-    if cfg["kind"] in ("forward", "equivariance") and max(cfg["mesh"][cfg["axis"]], 1) >= 3:
-        # >= 3 layers: nested square roots; the only expensive query is the final satisfiability check of the path
-        # (vacuity guard), the obligations are closed structurally or with two axiom instances
-        to = 60000 if tier == "quick" else 240000
-    return symbolic_run(SCEN[cfg["kind"]], cfg, tier, max_paths=40, obl_timeout_ms=to)
+    return symbolic_run(SCEN[cfg["kind"]], cfg, tier, max_paths=40)
 
 
 # ------------------------------------------------------------------------------------------------
